@@ -125,6 +125,20 @@ func emitBuiltins(em *Emitter, repoDir string, seedv int64, pass int) {
 			em.Emit(map[string]interface{}{"op": "budget", "okAt": okAt, "draws": len(o.Draws), "len": 2, "kind": res.Kind, "err": res.Err})
 		}
 	}
+	// the tolerated failure probability, observed: recipes whose requirements are given by class flags only
+	for _, tc := range []struct{ L, allow, require int }{{4, 15, 15}, {3, 15, 15}, {2, 15, 12}, {6, 15, 15}, {8, 15, 15}, {12, 15, 15}, {1, 4, 4}, {3, 3, 3}} {
+		cs := CharSpec{Len: tc.L, Allow: tc.allow, Require: tc.require}
+		cs.norm()
+		r := cs.Recipe()
+		e := NewEnum(*seed)
+		e.Policy = func(j int, n uint32) uint32 { return uint32(e.Rng.Int63n(int64(n))) }
+		var res GenRes
+		o := e.Run(nil, func() { p, err := r.Generate(); res = ResOf(p, err, nil) })
+		if o.Panic != nil {
+			res = ResOf(nil, nil, o.Panic)
+		}
+		em.Emit(map[string]interface{}{"op": "tolerance", "char": cs, "kind": res.Kind, "err": res.Err, "draws": len(o.Draws)})
+	}
 	// separator presets: the complete choice tree of each function
 	names := []string{"SFNone", "SFDigits1", "SFDigits2", "SFDigitsNoAmbiguous1", "SFDigitsNoAmbiguous2", "SFSymbols", "SFDigitsSymbols"}
 	for _, name := range names {
@@ -181,6 +195,14 @@ func emitBuiltins(em *Emitter, repoDir string, seedv int64, pass int) {
 	// shipped lists against their data files, in chunks (first pass only)
 	if pass > 0 {
 		return
+	}
+	// the shipped lists are used first (as opgen does): they must still be identical to their data files afterwards
+	for _, ws := range [][]string{spg.AgileWords, spg.AgileSyllables} {
+		if wl, err := spg.NewWordList(ws); err == nil {
+			r := spg.NewWLRecipe(3, wl)
+			r.Capitalize = spg.CSOne
+			r.Generate()
+		}
 	}
 	for _, l := range []struct {
 		name string
